@@ -1,7 +1,7 @@
 """C03 — non-malleable satisfactions cannot be altered by third parties (DESIGN 5/C03).
 Proof side: Properties/C03.v (has_sig bookkeeping of the satisfier model; partial).
 Search side: for every non-malleable satisfaction the implementation returns for a sane
-wsh / sh(wsh) descriptor with <= 6 script inputs, alternative witnesses over the adversary's
+wsh / sh(wsh) / sh / bare / tr-script-path descriptor with <= 6 script inputs, alternative witnesses over the adversary's
 alphabet (elements of the original witness, empty, 01, 32 zero bytes, junk, every preimage,
 every public key) of every length <= n+1 are executed on the extracted Script semantics
 (exhaustive while the budget allows, then random single-position edits); an accepted
@@ -13,7 +13,7 @@ LEVEL = "proof"
 
 def run(rep, tier, seed, replay):
     ok, thms = vlib.proof_gates(rep, "C03")
-    n = 2500 if tier == "thorough" else 350
+    n = 2500 if tier == "thorough" else 220
     r = satrun.run(seed, n, "--c03")
     s = r["summary"]
     for b in r["bad"].get("C03", []):
@@ -35,4 +35,4 @@ def run(rep, tier, seed, replay):
         "samples": [{"summary": s}],
     })
     rep.assumptions = ["the search is bounded (budget per witness); the uniqueness statement itself is not a theorem yet",
-                       "only witness-script outputs (wsh, sh(wsh)) are searched"]
+                       "pkh / wpkh / sh(wpkh) / tr key path have a single signature element and are not searched"]
